@@ -35,7 +35,9 @@ FlagSpace == [ np     : 1..4,                       \* pages
                grid   : BOOLEAN,                    \* the last page is a column of 40 one-digit cells: its fragments average
                                                     \* <= 2 characters (a "character-level" page) while the other pages do not
                short  : BOOLEAN,                    \* last page has little content (content bounds << page)
-               cover  : BOOLEAN ]                   \* page 1 is a cover: no running header, footer line or page number
+               cover  : BOOLEAN,                    \* page 1 is a cover: no running header, footer line or page number
+               wide   : BOOLEAN ]                   \* ... and the cover is a landscape page: the pages of a document need not share one
+                                                    \* size, and a page's margin bands are those of ITS OWN height
 
 \* keys: 1 header A, 2 header B (11, 12: the same with a constant number in the text), 3 "Page #", 4 "#", 5 footer line, 6 repeating body line, 7 title,
 \*       8 drifting word, 100+p*10+i unique body lines
@@ -62,7 +64,7 @@ PageOf(fl, p) ==
 
 DocOf(fl) == [p \in 1..fl.np |-> PageOf(fl, p)]
 
-Init == /\ flags \in {f \in FlagSpace : (f.hnum => (f.hdr # "none" /\ ~f.grid /\ ~f.brep /\ ~f.bnum /\ f.drift = "none" /\ f.title = "none")) /\ (f.grid => (f.np >= 2 /\ ~f.short /\ ~f.brep /\ ~f.bnum /\ ~f.beqh /\ f.drift = "none"))} /\ doc = DocOf(flags) /\ opt \in {"headers", "footers", "both"}
+Init == /\ flags \in {f \in FlagSpace : (f.wide => (f.cover /\ f.np >= 3 /\ ~f.grid /\ f.drift = "none")) /\ (f.hnum => (f.hdr # "none" /\ ~f.grid /\ ~f.brep /\ ~f.bnum /\ f.drift = "none" /\ f.title = "none")) /\ (f.grid => (f.np >= 2 /\ ~f.short /\ ~f.brep /\ ~f.bnum /\ ~f.beqh /\ f.drift = "none"))} /\ doc = DocOf(flags) /\ opt \in {"headers", "footers", "both"}
 Next == FALSE /\ UNCHANGED vars
 Spec == Init /\ [][Next]_vars
 
